@@ -34,6 +34,7 @@ def run(ctx):
     rep.rule("C16.R2", "rejection asserts dominate the normal return", 8)
     rep.rule("C16.R3", "evaluation point (t0, q0, u0)", 15)
     rep.rule("C16.R4", "acceleration-level prox template", 3)
+    rep.rule("C16.R5", "one scalar prox parameter per vector-valued friction law (Coulomb direction at acceleration level)", 2)
     fn = ctx.repo.get(SB, "consistent_initial_conditions")
     C = f"{SB}:consistent_initial_conditions"
     res = termset.Resolver(fn)
@@ -149,6 +150,10 @@ def run(ctx):
             rep.ok("C16.R4", Cp, r["desc"])
         else:
             rep.bad("C16.R4", Cp, c, "; ".join(r["problems"]), f"{SB}:{c.lineno}")
+        if r.get("scalar_r") is True:
+            rep.ok("C16.R5", Cp, f"scalar prox parameter in {r['desc'][:90]}")
+        elif r.get("scalar_r") is False:
+            rep.bad("C16.R5", Cp, c, r["scalar_msg"], f"{SB}:{c.lineno}")
     nloc, bad = proxrule.check_locality(pf, tags)
     for node, msg in bad:
         rep.bad("C16.R4", f"{SB}:consistent_initial_conditions.prox", proxrule._stmt_of(node) if not isinstance(node, ast.stmt) else node, msg, f"{SB}:{node.lineno}")
@@ -174,7 +179,7 @@ MUTANTS = [
     dict(id="c16-m3", what="constraint matrix evaluated at the un-normalised state", file=SB,
          old="    W_g = system.W_g(t0, q0)\n", new="    W_g = system.W_g(t0, system.q0)\n", expect="C16.R3"),
     dict(id="c16-m4", what="friction prox uses the normal prox parameter", file=SB,
-         old="                    prox_r_F[i_F] * gamma_Fi - la_F[i_F],", new="                    prox_r_N[i_F] * gamma_Fi - la_F[i_F],", expect="C16.R4"),
+         old="                    min(prox_r_F[i_F]) * gamma_Fi - la_F[i_F],", new="                    min(prox_r_N[i_F]) * gamma_Fi - la_F[i_F],", expect="C16.R4"),
     dict(id="c16-m5", what="Signorini update loses its minus sign", file=SB,
          old="        la_N = -NegativeOrthant.prox(prox_r_N * g_N_ddot - la_N)", new="        la_N = NegativeOrthant.prox(prox_r_N * g_N_ddot - la_N)", expect="C16.R4"),
     dict(id="c16-m6", what="penetration check removed", file=SB,
@@ -189,5 +194,9 @@ MUTANTS = [
          old="                norm(gamma_Fi), 0, atol=IS_CLOSE_ATOL", new="                norm(gamma_F), 0, atol=IS_CLOSE_ATOL", expect="C16.R4"),
     dict(id="c16-m10", what="g_ddot checked at zero accelerations", file=SB,
          old="    g_ddot0 = system.g_ddot(t0, q0, u0, u_dot0)", new="    g_ddot0 = system.g_ddot(t0, q0, u0, np.zeros_like(u0))", expect="C16.R3"),
+]
+MUTANTS += [
+    dict(id="c16-r5-1", canary=True, what="consistent initial conditions: per-component prox parameter in the slip projection (original defect)", file=SB,
+         old="                    min(prox_r_F[i_F]) * gamma_Fi - la_F[i_F],", new="                    prox_r_F[i_F] * gamma_Fi - la_F[i_F],", expect="C16.R5"),
 ]
 NEUTRAL = []
